@@ -97,6 +97,12 @@ def gen_script(rnd):
             data = valid_response(rnd, 9 - gen)  # other generation's response on this port
         t = rnd.choice(GRID)
         script.append([t, gen, data, ["192.168.1.9", rnd.randint(1024, 65000)]])
+        if c < 0.45 and rnd.random() < 0.2 and data.count(b",") >= 3:
+            # the same console answering once more from its other interface: another address
+            # field, everything else equal - another entry
+            rest = data.split(b",", 1)[1]
+            script.append([rnd.choice(GRID), gen, b"10.9.8.%d," % rnd.randint(2, 250) + rest,
+                           ["10.9.8.7", rnd.randint(1024, 65000)]])
         if rnd.random() < 0.25:
             script.append([rnd.choice(GRID), gen, data, ["192.168.1.9", 5000]])  # duplicate
     return sorted(script, key=lambda x: x[0])
@@ -110,6 +116,13 @@ def cases(tier, seed):
         for t in (0.001, 0.499, 0.501, 0.999, 1.001, 1.499, 1.55):
             yield {"script": [[t, gen, valid_response(random.Random(t), gen), ["1.2.3.4", 9]]],
                    "unicast": None}
+    # one console with two interfaces: two answers that differ in the address field only
+    for gen in (4, 5):
+        tail = (b"SER-1,AirTouch%d,12345678" % gen) + (b",Home" if gen == 5 else b"")
+        yield {"script": [[0.1, gen, b"192.168.1.20," + tail, ["192.168.1.20", 49005]],
+                          [0.2, gen, b"10.0.0.20," + tail, ["10.0.0.20", 49005]],
+                          [0.3, gen, b"192.168.1.20," + tail, ["192.168.1.20", 49005]]],
+               "unicast": None}
     # a street of consoles: dozens of distinct valid answers of one model within one interval
     for gen in (4, 5):
         for count in (17, 40, 120):
